@@ -735,6 +735,14 @@ func runC07(rc *fw.RunCtx) {
 	} else {
 		rc.Hit("importer_fs")
 	}
+	// (the option lists are dropped again when the run ends: a worker process
+	// executes tens of thousands of runs)
+	var madeCfgs []*risor.Config
+	defer func() {
+		for _, c := range madeCfgs {
+			c07Options.Delete(c)
+		}
+	}()
 	newCfg := func() *risor.Config {
 		var imp importer.Importer
 		if useLocal {
@@ -755,6 +763,7 @@ func runC07(rc *fw.RunCtx) {
 		ropts := append(baseOpts(ex), risor.WithImporter(imp), risor.WithOS(vmOS))
 		c := risor.NewConfig(ropts...)
 		c07Options.Store(c, ropts)
+		madeCfgs = append(madeCfgs, c)
 		return c
 	}
 	cfg := newCfg() // system under test
